@@ -183,6 +183,26 @@ def run_ops_mesh(case, r):
             c[...] = rnd(fullshape)
             r.check(dg(names[a]) == keep, 'copy-independent', f'{tag}: writing into a copy changed the original')
             names[f'v{int(rng.integers(0, 4))}'] = c
+            # copies of views with another memory layout (transposed = column-major, strided, reversed) are independent too
+            src = names[a]
+            arr = np.asarray(src)
+            views = []
+            if arr.ndim >= 2:
+                views.append(('transposed', src.T))
+                views.append(('column-major', np.asfortranarray(arr).view(get_cls('mesh'))))
+            if arr.ndim >= 1 and arr.shape[-1] >= 2:
+                views.append(('strided', src[..., ::2]))
+                views.append(('reversed', src[..., ::-1]))
+            for vname, v in views:
+                if not isinstance(v, get_cls('mesh')):
+                    continue
+                base_cls = get_cls('mesh')
+                cv = base_cls(v)
+                r.check(np.array_equal(np.asarray(cv), np.asarray(v)) and not np.shares_memory(np.asarray(cv), np.asarray(v)), 'copy-construction', f'{tag}: mesh(other) of a {vname} view is not an equal, independent object (shares memory: {np.shares_memory(np.asarray(cv), np.asarray(v))})')
+                keepv = digest(np.ascontiguousarray(np.asarray(v)))
+                cv[...] = 7.0
+                r.check(digest(np.ascontiguousarray(np.asarray(v))) == keepv, 'copy-independent', f'{tag}: writing into the copy of a {vname} view changed the original')
+                r.count('layout_view_copies')
         elif kind == 7:  # abs and norm axioms
             x, y = names[a], names[b]
             ax = abs(x)
@@ -514,7 +534,7 @@ def finalize(agg):
               'oracle:logged-value-frozen', 'oracle:caller-u0-unchanged', 'oracle:numpy-function-type', 'oracle:logged-value-survives-next-run'):
         if c.get(k, 0) == 0:
             out.append(f'monitor {k} never evaluated')
-    for k, why in (('noncontiguous_component_views', 'no component of a non-contiguous view was exercised'), ('particle_copies_checked', 'no particle copy was checked over all its arrays')):
+    for k, why in (('noncontiguous_component_views', 'no component of a non-contiguous view was exercised'), ('particle_copies_checked', 'no particle copy was checked over all its arrays'), ('layout_view_copies', 'no copy of a view with another memory layout was checked')):
         if c.get(k, 0) == 0:
             out.append(why)
     return out
